@@ -523,36 +523,62 @@ func c13BuildMsg(w *c13World, fl c13Fields, ex *c13Expect) *pb.Identify {
 	return m
 }
 
-// c13HonestMsg is what an honest R sends: own key, own valid record, matching listen addresses, a few
-// protocols (including identify push) and agent data. tag distinguishes successive messages.
+type c13HonestCached struct {
+	msg    []byte
+	stored []string
+	rec    *c13Rec
+}
+
+var c13HonestCache sync.Map
+
+// c13HonestMsg is what an honest R sends: own key, own valid record, matching listen addresses (all public),
+// a few protocols (including identify push) and agent data. tag distinguishes successive messages. The
+// sealed record is cached (RSA signing is slow).
 func c13HonestMsg(w *c13World, rt int, tag int, ex *c13Expect) (*pb.Identify, []string) {
 	r := w.R[rt]
-	addrs := []ma.Multiaddr{
-		ma.StringCast(fmt.Sprintf("/ip4/1.2.%d.1/tcp/4001", tag)),
-		ma.StringCast(fmt.Sprintf("/ip4/1.2.%d.1/udp/4001/quic-v1", tag)),
-		ma.StringCast(fmt.Sprintf("/ip6/2607:f8b0::%x/tcp/4001", tag+1)),
-	}
-	var stored []string
-	m := &pb.Identify{PublicKey: r.PubBytes, Protocols: []string{IDPush, ID, fmt.Sprintf("/c13/app/%d", tag)},
-		AgentVersion: proto.String(fmt.Sprintf("c13-honest/%d", tag)), ProtocolVersion: proto.String("c13-proto/1"),
-		ObservedAddr: c13LAddrPub.Bytes()}
-	for _, a := range addrs {
-		m.ListenAddrs = append(m.ListenAddrs, a.Bytes())
-		st := string(a.Bytes())
-		stored = append(stored, st)
-		if ex != nil {
-			ex.Allowed[st] = true
-			ex.Origin[st] = fmt.Sprintf("honest#%d", tag)
+	key := fmt.Sprintf("%d/%d", rt, tag)
+	var c *c13HonestCached
+	if v, ok := c13HonestCache.Load(key); ok {
+		c = v.(*c13HonestCached)
+	} else {
+		addrs := []ma.Multiaddr{
+			ma.StringCast(fmt.Sprintf("/ip4/1.2.%d.1/tcp/4001", tag)),
+			ma.StringCast(fmt.Sprintf("/ip4/1.2.%d.1/udp/4001/quic-v1", tag)),
+			ma.StringCast(fmt.Sprintf("/ip6/2607:f8b0::%x/tcp/4001", tag+1)),
 		}
+		m := &pb.Identify{PublicKey: r.PubBytes, Protocols: []string{IDPush, ID, fmt.Sprintf("/c13/app/%d", tag)},
+			AgentVersion: proto.String(fmt.Sprintf("c13-honest/%d", tag)), ProtocolVersion: proto.String("c13-proto/1"),
+			ObservedAddr: c13LAddrPub.Bytes()}
+		c = &c13HonestCached{}
+		rec := &c13Rec{Valid: true, Origin: map[string]string{}, Allow: map[string]bool{}}
+		for _, a := range addrs {
+			m.ListenAddrs = append(m.ListenAddrs, a.Bytes())
+			st := string(a.Bytes())
+			c.stored = append(c.stored, st)
+			rec.Origin[st] = fmt.Sprintf("record(honest#%d)/suffix=none", tag)
+			rec.Allow[st] = true
+		}
+		rec.Bytes = c13Seal(&peer.PeerRecord{PeerID: r.ID, Seq: uint64(10 + tag), Addrs: addrs}, r)
+		m.SignedPeerRecord = rec.Bytes
+		c.rec = rec
+		var err error
+		if c.msg, err = proto.Marshal(m); err != nil {
+			panic("c13: infrastructure: " + err.Error())
+		}
+		c13HonestCache.Store(key, c)
 	}
-	rec := &c13Rec{Valid: true, Bytes: c13Seal(&peer.PeerRecord{PeerID: r.ID, Seq: uint64(10 + tag), Addrs: addrs}, r),
-		Origin: map[string]string{}, Allow: map[string]bool{}}
-	m.SignedPeerRecord = rec.Bytes
+	m := &pb.Identify{}
+	if err := proto.Unmarshal(c.msg, m); err != nil {
+		panic("c13: infrastructure: " + err.Error())
+	}
 	if ex != nil {
-		ex.noteRec(rec)
+		for _, st := range c.stored {
+			ex.Allowed[st] = true
+		}
+		ex.noteRec(c.rec)
 		ex.noteScalars(m)
 	}
-	return m, stored
+	return m, c.stored
 }
 
 // ---------- pre-population of L's peerstore ----------
